@@ -16,6 +16,8 @@ Runtime (VCs on the real bodies, jinja2.runtime):
                                   KeyError for an unknown block; repr names the class and the template
 Compiler (emission contracts on the real visitors, jinja2.compiler):
   C04.emit.block / C04.emit.extends / C04.emit.output / C04.emit.template   (see the predicates below)
+  C04.emit.for.scoped_block_sees_loop[shape]   visit_For creates the special `loop` variable whenever a scoped block lies ANYWHERE in
+                                  the subtree of the loop body (so that an override rendered through derived(locals) sees it)
 
 The mapping name -> stack is modelled *generically*: one unconstrained key `k`, a membership predicate dom and the value at
 `k` (a heap list).  A dict comprehension / generator over `.items()` is evaluated once for the generic item (dependency spec
@@ -234,7 +236,17 @@ def _native_inheritance(w=None):
             "loop": "{% for i in [1, 2] %}{% block item scoped %}({{ i }}){% endblock %}{% endfor %}",
             "loop_unscoped": "{% for i in [1, 2] %}{% block item %}({{ i }}){% endblock %}{% endfor %}",
             "loopchild": "{% extends 'loop' %}{% block item %}<{{ i }}{{ super() }}>{% endblock %}",
-            "req": "[{% block r required %}{% endblock %}]",
+            # a scoped block anywhere below a loop (not only as its direct child) sees the loop's variables, incl. the special `loop`
+            "loop_if": "{% for i in [1, 2, 3] %}{% if i != 2 %}{% block item scoped %}({{ i }}){% endblock %}{% endif %}{% endfor %}",
+            "loop_with": "{% for i in [1, 2] %}{% with w = i * 10 %}{% block item scoped %}({{ i }}){% endblock %}{% endwith %}{% endfor %}",
+            "loop_filter": "{% for i in ['a', 'b'] %}{% filter upper %}{% block item scoped %}({{ i }}){% endblock %}{% endfilter %}{% endfor %}",
+            "loop_loop": "{% for i in [1, 2] %}{% for j in [7] %}{% if j %}{% block item scoped %}({{ i }}{{ j }}){% endblock %}{% endif %}{% endfor %}{% endfor %}",
+            "loop_if_child": "{% extends 'loop_if' %}{% block item %}<{{ loop.index }}/{{ loop.length }}:{{ i }}{% if loop.last %}!{% endif %}>{% endblock %}",
+            "loop_with_child": "{% extends 'loop_with' %}{% block item %}<{{ loop.index }}:{{ i }}:{{ w }}>{% endblock %}",
+            "loop_filter_child": "{% extends 'loop_filter' %}{% block item %}<{{ loop.index0 }}:{{ i }}>{% endblock %}",
+            "loop_loop_child": "{% extends 'loop_loop' %}{% block item %}<{{ loop.index }}:{{ i }}{{ j }}>{% endblock %}",
+            "loop_direct_child": "{% extends 'loop' %}{% block item %}<{{ loop.index }}:{{ i }}>{% endblock %}",
+            "req":"[{% block r required %}{% endblock %}]",
             "req_child": "{% extends 'req' %}{% block r %}R{% endblock %}",
             "req_grandchild_noop": "{% extends 'req_mid' %}",
             "req_mid": "{% extends 'req' %}",
@@ -257,6 +269,12 @@ def _native_inheritance(w=None):
             ("loop", {}, "(1)(2)"),
             ("loop_unscoped", {}, "()()"),
             ("loopchild", {}, "<1(1)><2(2)>"),
+            ("loop_if", {}, "(1)(3)"),
+            ("loop_if_child", {}, "<1/3:1><3/3:3!>"),
+            ("loop_with_child", {}, "<1:1:10><2:2:20>"),
+            ("loop_filter_child", {}, "<0:A><1:B>"),
+            ("loop_loop_child", {}, "<1:17><1:27>"),
+            ("loop_direct_child", {}, "<1:1><2:2>"),
             ("req", {}, "TemplateRuntimeError"),
             ("req_child", {}, "[R]"),
             ("req_mid", {}, "TemplateRuntimeError"),
@@ -1365,6 +1383,153 @@ EMIT_TASKS = [
 ] + [emit_task(f"C04.emit.output[{n} children]", "visit_Output", N.Output, output_pred, node_fields=output_fields(n), min_paths=3) for n in (1, 2)] \
   + [TemplateShapeTask(s) for s in SHAPES]
 
+
+# ================================================================== emission: visit_For creates `loop` for a scoped block anywhere below it
+
+# body shapes of the loop: "B" a block (its `scoped` flag symbolic), "S" any other statement, (Container, inner shape) a statement
+# that contains further statements
+FOR_SHAPES = {
+    "B": ("B",),
+    "S": ("S",),
+    "If[B]": (("If", ("B",)),),
+    "With[B]": (("With", ("B",)),),
+    "FilterBlock[B]": (("FilterBlock", ("B",)),),
+    "If[With[B]]": (("If", (("With", ("B",)),)),),
+    "S,If[B],B": ("S", ("If", ("B",)), "B"),
+    "If[S,B],If[B]": (("If", ("S", "B")), ("If", ("B",))),
+}
+
+
+def build_for_body(st, shape, path, blocks, direct=None):
+    """concrete statement list for a shape; `blocks` collects every Block in document order"""
+    out = []
+    for i, k in enumerate(shape):
+        p = f"{path}[{i}]"
+        if k == "B":
+            r = emit.make_node(st, N.Block, p, fields={"name": f"b{len(blocks)}", "body": st.alloc(HList(items=[]), initial=True)})
+            blocks.append(r)
+        elif k == "S":
+            r = emit.make_node(st, N.ExprStmt, p, kind="stmt")  # some statement that is not a block
+        else:
+            cls, inner = k
+            kids = build_for_body(st, inner, p + ".body", blocks)
+            f = {"body": st.alloc(HList(items=kids), initial=True)}
+            if cls == "If":
+                f.update(elif_=st.alloc(HList(items=[]), initial=True), else_=st.alloc(HList(items=[]), initial=True))
+            if cls == "With":
+                f.update(targets=st.alloc(HList(items=[]), initial=True), values=st.alloc(HList(items=[]), initial=True))
+            r = emit.make_node(st, getattr(N, cls), p, fields=f)
+        out.append(r)
+    return out
+
+
+class ForScopedBlockTask(Task):
+    """C04.emit.for.scoped_block_sees_loop[<shape>]: the real visit_For on a loop whose body is a concrete small tree of symbolic
+    statements.  Node.find_all / Node.iter_child_nodes are used through their documented contracts on that tree (find_all: every
+    node of the class in the SUBTREE, document order; iter_child_nodes(only=("body",)): the DIRECT children in `body`).
+    Obligation: on every path on which the special `loop` variable is not created, every block in the loop's subtree is known to be
+    unscoped - i.e. a scoped block anywhere below the loop gets `loop` (declared on the loop frame, bound by (Async)LoopContext)."""
+    kind = "emission"
+
+    def __init__(self, label):
+        self.label, self.shape = label, FOR_SHAPES[label]
+        self.prop = "C04"
+        self.name = f"C04.emit.for.scoped_block_sees_loop[{label}]"
+        self.bound_text = "shape bound: the loop body is this concrete tree (block flags, other statements, target, iterable, async flag symbolic); no loop filter / else / recursion"
+
+    def replay(self, w):
+        return native_inheritance(w)
+
+    def schemas(self):
+        info = {}
+
+        def fields(st):
+            blocks = []
+            kids = build_for_body(st, self.shape, "node.body", blocks)
+            info["blocks"], info["kids"] = blocks, kids
+            return {"body": st.alloc(HList(items=kids), initial=True), "else_": st.alloc(HList(items=[]), initial=True), "test": None, "recursive": False,
+                    "target": emit.make_node(st, N.Name, "node.target", fields={"ctx": "store"}), "iter": emit.make_node(st, N.Name, "node.iter")}
+
+        def configure(I):
+            def find_all(I_, s, args, kwargs, node):
+                if args[1] is N.Block:
+                    return [(s, tuple(info["blocks"]))]
+                if args[1] is N.Name:
+                    return [(s, ())]  # the scan for an assignment to `loop` in the target is C07's obligation
+                raise Unsupported(f"find_all({args[1]!r})", node)
+
+            def iter_child_nodes(I_, s, args, kwargs, node):
+                only = kwargs.get("only")
+                if tuple(only or ()) != ("body",) or kwargs.get("exclude"):
+                    raise Unsupported("iter_child_nodes with other arguments", node)
+                return [(s, tuple(info["kids"]))]
+
+            I.specs["Node.find_all"] = find_all
+            I.specs["Node.iter_child_nodes"] = iter_child_nodes
+
+        out = []
+        for buf in (None, "t_buf"):
+            scs, I = emit.run_visitor("jinja2.compiler:CodeGenerator.visit_For", N.For, buffer=buf, node_fields=fields, configure=configure)
+            for sc in scs:
+                sc.buffer = buf
+                sc.blocks = [sc.st.get(b).path for b in info["blocks"]]
+                sc.kid_paths = [sc.st.get(k).path for k in info["kids"]]
+            out += scs
+        return out
+
+    def check(self, sc, tree, ph, txt):
+        decl = [e for e in sc.st.trace if e.kind == "call" and e.name == "symbols.declare_parameter" and e.args and e.args[0] == "loop"]
+        loops = [n for n in tree.body if isinstance(n, (ast.For, ast.AsyncFor))]
+        if len(loops) != 1:
+            return [f"expected one loop statement: {txt!r}"]
+        lp = loops[0]
+        fails = []
+        holes = [h.path for n in ast.walk(ast.Module(body=lp.body, type_ignores=[])) for h in [hole_of(n, ph)] if h is not None]
+        if holes != sc.kid_paths:
+            fails.append(f"the loop body must contain the body statements in order: {holes}")
+        ctx_call = isinstance(lp.iter, ast.Call) and emit.call_name(lp.iter) in ("LoopContext", "AsyncLoopContext")
+        extended = False
+        if ctx_call and isinstance(lp.target, ast.Tuple) and len(lp.target.elts) == 2 and len(decl) == 1:
+            p = ph.get(getattr(lp.target.elts[1], "id", None))
+            extended = isinstance(p, tuple) and p[0] == "ident" and p[1].eq(decl[0].result.t)
+        if (ctx_call or decl) and not extended:
+            fails.append(f"`loop` must be the parameter declared on the loop frame and bound by the loop context: {ast.unparse(lp.target)} in {ast.unparse(lp.iter)[:60]}")
+        if not extended:
+            for b in sc.blocks:
+                if not sc.holds(z3.Not(z3.Bool(b + ".scoped"))):
+                    fails.append(f"the block at {b} may be scoped, but this loop does not create the special `loop` variable: an override of the block "
+                                 f"cannot see `loop` (a scoped block ANYWHERE below the loop must make it an extended loop)")
+        return fails
+
+    def run(self, tier, seed):
+        try:
+            scs = self.schemas()
+        except Unsupported as ex:
+            return [Res(self.name + ".engine", "unknown", "pyvc-emit", 0, f"unsupported: {ex}", self.kind)]
+        res = []
+        for i, sc in enumerate(scs):
+            fails = []
+            if sc.outcome == "raise":
+                fails.append(f"visit_For raises {sc.value!r}")
+            else:
+                for txt, ph in sc.texts():
+                    try:
+                        tree = emit.parse_stmts(txt)
+                    except SyntaxError as ex:
+                        fails.append(f"emitted loop does not parse: {ex.msg}")
+                        continue
+                    fails += self.check(sc, tree, ph, txt)
+            if fails:
+                res.append(Res(f"{self.name}#p{i}", "refuted", "pyvc-emit", 0, f"under {[str(c)[:50] for c in sc.pc][:8]}: " + "; ".join(fails[:2]), self.kind,
+                               witness={"shape": self.label, "path_condition": [str(c) for c in sc.pc][:12], "buffer": sc.buffer}))
+            else:
+                res.append(Res(f"{self.name}#p{i}", "discharged", "pyvc-emit", 0, "", self.kind))
+        if len(scs) < 4:
+            res.append(Res(self.name + ".paths", "error", "pyvc-emit", 0, f"only {len(scs)} paths", self.kind))
+        return res
+
+
+EMIT_TASKS += [ForScopedBlockTask(k) for k in FOR_SHAPES]
 
 RUNTIME_TASKS = [ContextInit(False), ContextInit(True), ContextSuper(), ContextDerived(), BlockRefInit(), BlockRefSuper(),
                  BlockRefRender("sync"), BlockRefRender("async"), BlockRefCallAsyncDispatch(), TemplateRef(), TemplateRefRepr()]
